@@ -178,7 +178,7 @@ def run(R):
             flag = bool_source(pw[0]['value'])
             R.check(flag is not None and (is_call(flag, name='is_some') or loc_of(flag) in locs_of_type(tonic, fe, r'^bool$')), 'C03.R3', 'flag-is-bool-cast', site(fe, pw[0]['bb']), 'flag = %s (made from a bool: 0 or 1)' % show(pw[0]['value'])[:100])
             ln = payload_len_source(pw[1]['value'])
-            R.check('SubWithOverflow' in show(ln) and 'const(%d)' % W['header_size'] in show(ln), 'C03.R3', 'length=payload', site(fe, pw[1]['bb']), 'length = %s' % show(ln)[:100])
+            R.check(is_payload_len(ln, param_of_type(fe, r'^&mut \[u8\]$'), W['header_size']), 'C03.R3', 'length=payload', site(fe, pw[1]['bb']), 'length = %s' % show(ln)[:100])
 
     # ---------------------------------------------------------------- R4 announced encoding
     R.describe('C03.R4', 'the encoding announced in grpc-encoding is the one handed to the encoder, whose flag is is_some(effective encoding); tokens/codecs per spec table')
@@ -221,9 +221,8 @@ def run(R):
     # ---------------------------------------------------------------- R5 exactly one grpc-status / trailers typestate
     R.describe('C03.R5', 'EncodeBody: once the end-of-stream flag is set no further frame is produced; trailers are built only in the server role and set the flag first; the client role never produces trailers')
     with R.guard('C03.R5'):
-        tr = tonic.body('codec::encode::EncodeState::trailers')
         pf, rows = encode_body_rows(tonic)
-        R.saw(pf, tr)
+        R.saw(pf)
 
         def flag_place(p):
             return mirlib.place_fields(p)[-1:] == ['is_end_stream']
@@ -242,7 +241,7 @@ def run(R):
         ntr = 0
         for r in rows:
             st = site(pf, r['path'][-1])
-            if r['kind'] == 'trailers':
+            if r['kind'] == 'trailers' and r['res'] == 'Err':
                 ntr += 1
                 R.check(r['sets_end'] == [True], 'C03.R5', 'trailers-sets-end-first', st, 'is_end_stream := true on the path that builds the trailers frame: %r' % r['sets_end'])
                 R.check(r['role'] == 'Server', 'C03.R5', 'trailers-server-only', st, 'role on that path: %r' % r['role'])
@@ -251,43 +250,8 @@ def run(R):
             if r['role'] == 'Client':
                 R.check(r['kind'] not in ('trailers', 'state-trailers') or r['kind'] == 'state-trailers', 'C03.R5', 'client-never-trailers', st, 'client role outcome %s' % r['kind'])
         R.floor('C03.R5', 'error-trailers sites in poll_frame', ntr, 1)
-        # EncodeState::trailers decision table (by feasible path)
-        meta = {}
-        trows = mirlib.path_rows(tr, meta=meta)
-        seen_rows = set()
-        for cons, path in trows:
-            v = cons_view(cons, meta)
-            role = view_get(v, lambda k: k.startswith('discr(') and k.rstrip(')').endswith('.role'))
-            ended = view_get(v, lambda k: k.endswith('is_end_stream') and 'discr(' not in k)
-            ended = None if ended is None else bool(ended)
-            val = mirlib.simplify(tr.ret_on_path(path))
-            kind = val[1].get('variant') if val[0] == 'agg' else '?'
-            sets = [const_val(x[3]) for x in tr.writes_on_path(path, flag_place)]
-            st = site(tr, path[-1])
-            seen_rows.add((role, ended, kind))
-            if kind == 'Some':
-                R.check(role == 'Server' and ended is False, 'C03.R5', 'trailers():server-first', st, 'Some(trailers) only in the server role with the flag clear: role %r, ended %r' % (role, ended))
-                R.check(sets == [True], 'C03.R5', 'trailers():sets-end', st, 'is_end_stream := true on the path returning Some(trailers): %r' % sets)
-                thm = find_terms(val, lambda x: is_call(x, name='to_header_map'))
-                src = strip_refs(thm[0][2][0]) if thm else ('x',)
-                # error.take() payload, Status::ok(""), or error.take().unwrap_or_else(|| Status::ok(""))
-                ok_take = term_contains(src, lambda x: is_call(x, name='take') and mentions_field(x, 'error'))
-                ok_ok = is_call(src, pat='Status::ok')
-                if is_call(src) and src[3] in ('unwrap_or_else', 'unwrap_or', 'unwrap_or_default') and len(src[2]) >= 1:
-                    dflt = strip_refs(src[2][1]) if len(src[2]) > 1 else ('x',)
-                    if dflt[0] == 'agg' and 'def' in dflt[1]:
-                        cb_ = tonic.body(re.compile('^' + re.escape(dflt[1]['def']) + '$'))
-                        ok_ok = all(is_call(strip_refs(t_), pat='Status::ok') for _, t_ in mirlib.returned_terms(cb_))
-                    else:
-                        ok_ok = is_call(dflt, pat='Status::ok')
-                    ok_take = ok_take and ok_ok
-                R.check(bool(thm) and (ok_take or ok_ok), 'C03.R5', 'trailers():status-source', st, 'trailers = to_header_map(error.take() or Status::ok): %s' % show(src)[:100])
-            else:
-                R.check(kind == 'None' and not (role == 'Server' and ended is False), 'C03.R5', 'trailers():%s' % ('client' if role == 'Client' else 'server-ended'), st, 'role %r, ended %r -> %s' % (role, ended, kind))
-                R.check(not sets, 'C03.R5', 'trailers():none-leaves-flag', st, 'no flag write on a None path: %r' % sets)
-        R.check(any(k == 'Some' for _, _, k in seen_rows), 'C03.R5', 'trailers():server-first:exists', site(tr), 'a path returning Some(trailers) exists')
-        R.check(any(ro == 'Client' and k == 'None' for ro, _, k in seen_rows), 'C03.R5', 'trailers():client:exists', site(tr), 'client role -> None')
-        R.check(any(en is True and k == 'None' for _, en, k in seen_rows), 'C03.R5', 'trailers():server-ended:exists', site(tr), 'already ended -> None')
+        # EncodeState::trailers decision table (by feasible path); read off poll_frame itself when the method was folded into it
+        check_end_of_source(R, 'C03.R5', tonic, pf, rows)
         # is_end_stream() reports the flag
         ie = tonic.body(re.compile(r'codec::encode::EncodeBody<T, U> as http_body::Body>::is_end_stream$'))
         rt = mirlib.returned_terms(ie)
